@@ -696,22 +696,33 @@ func (c *Client) receipts(ctx context.Context, url string, bm blockmap, start, l
 	if err != nil {
 		return fmt.Errorf("requesting receipts: %w", err)
 	}
+	if uint64(len(resps)) != limit {
+		const tag = "eth_getBlockReceipts expected %d responses got %d"
+		return fmt.Errorf(tag, limit, len(resps))
+	}
 	for i := range resps {
 		if resps[i].Error.Exists() {
 			const tag = "eth_getBlockReceipts"
 			return fmt.Errorf("rpc=%s %w", tag, resps[i].Error)
 		}
 	}
+	seen := map[uint64]bool{}
 	for i := range resps {
+		if resps[i].Result == nil {
+			return fmt.Errorf("eth_getBlockReceipts missing result for block %d", start+uint64(i))
+		}
 		if len(resps[i].Result) == 0 {
-			slog.ErrorContext(ctx, "no rpc error but empty result")
-			continue
+			continue // a block without transactions
 		}
 		blockNum := uint64(resps[i].Result[0].BlockNum)
-		if blockNum < start || blockNum > start+limit {
+		if blockNum < start || blockNum >= start+limit {
 			const tag = "eth_getBlockReceipts out of range block. num=%d start=%d lim=%d"
 			return fmt.Errorf(tag, blockNum, start, limit)
 		}
+		if seen[blockNum] {
+			return fmt.Errorf("eth_getBlockReceipts duplicate receipts for block %d", blockNum)
+		}
+		seen[blockNum] = true
 		b, ok := bm[blockNum]
 		if !ok {
 			return fmt.Errorf("block not found")
@@ -785,6 +796,9 @@ func (c *Client) logs(ctx context.Context, url string, filter *glf.Filter, bm bl
 	})
 	if err != nil {
 		return fmt.Errorf("making logs request: %w", err)
+	}
+	if len(resp) != 2 {
+		return fmt.Errorf("eth_getLogs expected 2 responses got %d", len(resp))
 	}
 	var (
 		hresp = resp[0].(*headerResp)
